@@ -115,7 +115,14 @@ impl PanicInfo {
     /// Stable signature: message prefix + source file (no line: unrelated edits move lines).
     pub fn signature(&self) -> String {
         let msg: String = self.msg.chars().take(60).collect();
-        let file = self.file.rsplit("/repo/").next().unwrap_or(&self.file);
+        // repo files relative to the repo; generated files (build dirs with hashes) by their tail
+        let file: String = if let Some(i) = self.file.find("/repo/") {
+            self.file[i + 6..].to_string()
+        } else if let Some(i) = self.file.find("/out/") {
+            format!("<generated>{}", self.file[i + 4..].replace("//", "/"))
+        } else {
+            self.file.clone()
+        };
         format!("panic[{}]@{}", msg.replace('\n', " "), file)
     }
     pub fn describe(&self) -> String {
